@@ -87,6 +87,7 @@ class Machine(Node):
         self.item_in_process= None
         self.num_workers = 0  # Number of worker threads currently processing
         self.time_last_occupancy_change = 0  # Time when the occupancy was last changed
+        self.setup_start_time = env.now  # the set-up period starts when the machine is created
         self.worker_thread = simpy.Resource(env, capacity=self.work_capacity)  # Resource for worker threads
         self.time_per_work_occupancy = [0.0 for _ in range(work_capacity+1)]  # Time spent by each worker thread
         #self.stats={"total_time_spent_in_states": {"SETUP_STATE": 0.0, "IDLE_STATE":0.0, "PROCESSING_STATE": 0.0,"BLOCKED_STATE":0.0 },
@@ -258,6 +259,13 @@ class Machine(Node):
             raise ValueError(f"Edge already exists in Machine '{self.id}' in_edges.")
         
     def update_final_state_time(self, simulation_end_time):
+        if self.stats["last_state_change_time"] is None:
+            # finalised before the set-up period is over: all the time so far was set-up time
+            elapsed = simulation_end_time - self.setup_start_time
+            self.stats["total_time_spent_in_states"]["SETUP_STATE"] += elapsed
+            self.total_time_setup += elapsed
+            self._update_worker_occupancy("UPDATE")
+            return
         duration = simulation_end_time- self.stats["last_state_change_time"]
         # updating the time of per thread statescld
         for procs in self.worker_thread_list:
